@@ -337,6 +337,7 @@ def run_node_aligned(spec):
                 h = w.h
                 try:
                     st["e0"] = w.node.end_to_end_seq.sequence
+                    replaced = False
                     w.start()
                     if direction == "in":
                         sp = h.inbound(ip="10.1.0.1", port=50001)
@@ -352,6 +353,18 @@ def run_node_aligned(spec):
                     for i in range(3):
                         app_request(w.apps["a4"], REALM, 0.002, {}, session=f"a;{i}")
                         h.settle()
+                        if i == 0 and delta % 2 == 0:
+                            # the user installs an own end-to-end generator (documented as replaceable) that carries
+                            # on from the current value: everybody has to draw from it from now on
+                            from diameter.node._helpers import SequenceGenerator
+
+                            class Continued(SequenceGenerator):
+                                def __init__(self, start):
+                                    super().__init__()
+                                    self._sequence = start
+
+                            w.node.end_to_end_seq = Continued(w.node.end_to_end_seq.sequence)
+                            replaced = True
                     h.advance(6)          # idle: watchdog request
                     h.settle()
                     sp.drain()
@@ -368,7 +381,8 @@ def run_node_aligned(spec):
                     evals += 1
                     cases += 1
                     hashes.add(h64("aligned", direction, delta))
-                    ctx = {"direction": direction, "delta": delta, "requests": [repr(f) for f in reqs]}
+                    ctx = {"direction": direction, "delta": delta, "end_to_end_generator_replaced": replaced,
+                           "requests": [repr(f) for f in reqs]}
                     if len(reqs) < 5:
                         wit.append({"key": "ids.node_aligned.setup", "detail": ctx})
                     if 0 in hb or 0 in ee:
